@@ -18,7 +18,7 @@ func init() {
 		Explanation: "Decides ownership, change-flag shape and look-ahead guards, not the transformations' identities: R1 every buffer handed to WrapUnsafe (a zero-copy []byte->string cast) is freshly allocated in the same call tree (make, []byte(string), append on such, library result), is never stored elsewhere, the cast is the last use, and buffers received as parameters are fresh at every call site; no transformation writes through its input; " +
 			"R2 change-flag classification for each return of the registered transformations: the flag is the constant true, or false with the input returned unchanged, or a content comparison input != output, or a length comparison only when the output comes from a delete-only call (Trim*, ReplaceAll(_,_,\"\")); flags computed by helper loops are listed as not decided; " +
 			"R3 look-ahead reads in the decoders are length-guarded (A9 shapes); R4 every registered name maps to a function and lookups are by the registered name; " +
-			"R5 multiMatch: the running value is replaced and collected together, only for a successful transformation that reported a change; a failing step leaves the running value untouched (also in the cached path transformArg and in the non-multiMatch executor).",
+			"R5 multiMatch: the running value is replaced and collected together, only for a successful transformation that reported a change and under no further condition; a failing step leaves the running value untouched (also in the cached path transformArg and in the non-multiMatch executor).",
 		NotDecided: []string{
 			"the defining identities (hex/base64/url round trips, md5/sha1, idempotence of trimming)",
 			"change flags computed inside helper loops (cmdLine, compressWhitespace, escapeSeqDecode, jsDecode, removeComments*, removeWhitespace, replaceComments, urlDecodeUni, urlEncode)",
